@@ -29,6 +29,15 @@ def allExited (o : Outcome) : Bool := o.leaked = 0
 (not demanded of a pipeline in which a node failed: there the property only asks for termination). -/
 def allDelivered (o : Outcome) : Bool := o.nodeFailed || o.delivered.all (fun d => d = o.accepted)
 
+/-- Clause 3 for an output with several DESTINATIONS (an InfluxDB output that writes every point back to the database /
+retention policy it came from): `want[k]` = accepted points that belong to destination `k`, `handed[k]` = how many of
+them destination `k` had been handed when the stop returned - a point is handed over when a write containing it was
+ATTEMPTED at its destination, whether or not the destination accepted it (a rejected write is reported by the output -
+logged and counted -, not silently dropped). The result lists the destinations that were not handed all their points
+(empty = the clause holds); in particular a destination that rejects its writes must not cost the others theirs. -/
+def unservedDestinations (want handed : List Nat) : List Nat :=
+  (List.range want.length).filter (fun k => handed.getD k 0 < want.getD k 0)
+
 /-- Clause 0: stopping a task never kills the daemon (a helper goroutine that outlives what it writes to —
 e.g. a timer sending on an edge that was closed under it — panics the whole process). -/
 def noCrash (o : Outcome) : Bool := !o.crashed
